@@ -93,6 +93,9 @@ func splitVarDefs(defs string) []string {
 type c11Step struct {
 	Op   string  `json:"op"`
 	Vars []hx.KV `json:"vars"`
+	// PanicKey: a resolver asked for this response key panics during the step (the caller recovers,
+	// as an HTTP server does); the kept Executable is used again afterwards
+	PanicKey string `json:"panic_key,omitempty"`
 }
 
 type c11Case struct {
@@ -252,11 +255,16 @@ func (g *c11gen) fieldG(label string) string {
 }
 
 func (g *c11gen) dir(label string) string {
-	switch rapid.IntRange(0, 7).Draw(g.t, label+"dir") {
+	switch rapid.IntRange(0, 9).Draw(g.t, label+"dir") {
 	case 0:
 		return " @skip(if: $b)"
 	case 1:
 		return " @include(if: $c)"
+	case 2:
+		// two conditions on one selection: one decided by a variable, one by a literal that lets the
+		// selection through, in either order
+		return rapid.SampledFrom([]string{" @skip(if: $b) @include(if: true)", " @include(if: true) @skip(if: $b)", " @include(if: $c) @skip(if: false)",
+			" @skip(if: false) @include(if: $c)", " @skip(if: $b) @include(if: $c)"}).Draw(g.t, label+"dir2")
 	}
 	return ""
 }
@@ -419,6 +427,9 @@ func genCaseC11(t *rapid.T) *c11Case {
 				st.Vars = append(st.Vars, hx.KV{Key: vn, V: rapid.SampledFrom(c11VarPool[vn]).Draw(t, lab)})
 			}
 		}
+		if rapid.IntRange(0, 7).Draw(t, fmt.Sprintf("step%dpanic", i)) == 0 {
+			st.PanicKey = fmt.Sprintf("k%d", rapid.IntRange(1, 12).Draw(t, fmt.Sprintf("step%dpanicKey", i)))
+		}
 		c.Steps = append(c.Steps, st)
 	}
 	return c
@@ -480,11 +491,20 @@ func checkC11(c *c11Case) (ds []hx.Discrepancy, traits map[string]bool) {
 	printed := exe.String()
 	seenOps := map[string]bool{}
 	for i, st := range c.Steps {
+		panicHook := func(node int, field *ggql.Field, args map[string]interface{}) (interface{}, error, bool) {
+			if st.PanicKey != "" && field.Alias == st.PanicKey {
+				panic("injected resolver panic at " + st.PanicKey)
+			}
+			return nil, nil, false
+		}
+		w.Hook = panicHook
 		got, pan := resolveExe(w.Root, exe, st.Op, goVars(st.Vars))
-		if pan != nil {
+		w.Hook = nil
+		if pan != nil && !strings.HasPrefix(fmt.Sprint(pan), "injected resolver panic") {
 			add("panic", "step %d: ResolveExecutable panicked: %v\n%s", i, pan, c.Text)
 			return
 		}
+		injected := pan
 		fw, err := c11World(c)
 		if err != nil {
 			add("setup", "%v", err)
@@ -495,10 +515,15 @@ func checkC11(c *c11Case) (ds []hx.Discrepancy, traits map[string]bool) {
 			add("setup", "fresh parse rejected: %v", err)
 			return
 		}
+		fw.Hook = panicHook
 		want, pan := resolveExe(fw.Root, fexe, st.Op, goVars(st.Vars))
-		if pan != nil {
-			add("panic", "step %d: fresh ResolveExecutable panicked: %v", i, pan)
+		if fmt.Sprint(pan) != fmt.Sprint(injected) {
+			add("panic", "step %d: the re-used executable ended with panic %v, the fresh one with %v", i, injected, pan)
 			return
+		}
+		if injected != nil {
+			traits["resolver-panic-recovered-by-the-caller"] = true
+			continue
 		}
 		g, wnt := hx.Norm(stripLoc(got)), hx.Norm(stripLoc(want))
 		if !hx.Equal(g, wnt) {
